@@ -192,6 +192,12 @@ def benign(pos, opts, seed):
             sh(["git", "-C", scratch, "clean", "-fdq", "-e", "target"])
             sh(["git", "-C", scratch, "apply", os.path.join(base, d, "patch.diff")])
             props = ["C03", "C04", "C12", "C14"] if opts.get("all") == "1" else [meta["property"]]
+            if opts.get("tests") == "1":
+                ok, n = tests_pass(scratch)
+                results.append({"change": d, "existing_tests_pass": ok, "existing_tests_passed_count": n})
+                common.log("[benign] %s: existing tests pass=%s (%d)" % (d, ok, n))
+                if not ok:
+                    bad.append((d, "tests"))
             for prop in props:
                 rc, viol, out, wall = run_check(prop, scratch, seed)
                 res = {"change": d, "written_for": meta["property"], "checked": prop, "check_rc": rc, "violation": viol[0] if viol else None, "wall_s": round(wall, 1)}
@@ -212,7 +218,7 @@ def benign(pos, opts, seed):
         tag += "-only-" + opts["only"]
     out = os.path.join(common.VERIF, "reports", "benign-" + ("all" if not pos else pos[0]) + tag + ".json")
     json.dump({"seed": seed, "all_properties_checked": opts.get("all") == "1", "results": results}, open(out, "w"), indent=1)
-    common.log("%d of %d check runs silent; report: %s" % (len(results) - len(bad), len(results), out))
+    common.log("%d of %d runs fine; report: %s" % (len(results) - len(bad), len(results), out))
     if bad:
         print("HARNESS-ERROR: a check alarmed on a behaviour-preserving change: %s" % bad, file=sys.stderr)
         return 2
